@@ -289,6 +289,16 @@ def bool_value(fn, op, depth=5):
     ds = [d for d in fn.defs(l)]
     if not ds or any(d[0] for d in ds) or any(d[3] != "rv" for d in ds):
         return deep_strip(fn.expr(op))
+    esc = getattr(fn, "_mut_borrowed", None)
+    if esc is None:
+        esc = set()
+        for b_ in fn.blocks:
+            for st_ in b_["stmts"]:
+                if st_["k"] == "assign" and st_["rv"]["k"] in ("ref", "rawptr") and (st_["rv"].get("mut") or st_["rv"]["k"] == "rawptr"):
+                    esc.add(st_["rv"]["place"]["l"])
+        fn._mut_borrowed = esc
+    if l in esc:
+        return deep_strip(fn.expr(op))     # may be written through the borrow: its assignments here are not all of its values
 
     def of_rv(rv):
         if rv["k"] == "use":
